@@ -204,8 +204,24 @@ def run(ctx):
             else:
                 gfr = paths.guarded(g, c2, lambda fn, cc, pol: paths.rel(fn, cc, pol, subst=False) in (("(dag->n_frames - 1)", "==", "node->lef"), ("node->lef", "==", "(dag->n_frames - 1)")) or paths.rel(fn, cc, pol) in (("(dag->n_frames - 1)", "==", "node->lef"), ("node->lef", "==", "(dag->n_frames - 1)")))
             ctx.check(l4, gadj and gfr, key(g, "candidate-test"), g.where(c2), "candidate test is not (frame at utterance %s and has %s)" % ("start" if name == "find_start_node" else "end", adj))
-        for c2 in g.calls(None):
-            pass
+        # ... and nothing else: every node at the utterance's edge that is linked inwards is a candidate
+        # (one step of the scan, path by path over values)
+        from .. import symx as _sx11, lin as _l11
+        for c2 in adds:
+            lp_ = g.enclosing(c2, ("For", "While", "Do"))
+            extra = set()
+            if lp_ is not None:
+                for pt in _sx11.loop_paths(g, lp_, P):
+                    if not any(c_[0] == "glist_add_ptr" for c_ in pt.calls):
+                        continue
+                    for k_ in pt.atoms:
+                        flat_ = " ".join(str(y_) for y_ in k_)
+                        if k_ == ("nz", "node->" + adj) or ("node->sf" in flat_ and name == "find_start_node") or ("node->lef" in flat_ and "n_frames" in flat_ and name == "find_end_node"):
+                            continue
+                        if flat_ == "== -1 node->wid":
+                            continue        # the word-string macro of the log message
+                        extra.add(flat_)
+            ctx.check(l4, not extra, key(g, "candidate-only"), g.where(c2), "candidates are further restricted by %s: a node at the utterance's %s that the first-best path uses may not become the lattice's %s, and the path is pruned away" % (sorted(extra)[:2], "start" if name == "find_start_node" else "end", "start" if name == "find_start_node" else "end"))
         derefs = [i for i in g.find("Call") if g.nodes[i].get("callee") == "gnode_ptr" or "gnode_ptr" in g.mac(i)]
         derefs = [s["node"] for s in paths.stores(g) if s["path"] == "node" and s["rhs"] is not None and g.canon(s["rhs"], subst=False) in ("%s->data.ptr" % lst, "gnode_ptr(%s)" % lst)]
         for d_ in derefs:
